@@ -126,32 +126,33 @@ fn clean_returns_everything_unacked_in_order() {
 
 /// C11 history lemma (bounded): after any history of QoS1 publishes and in-order PUBACKs from a fresh
 /// state, clean() returns the unacknowledged publishes in the order they were sent, wrap-around included.
-// @native props=C11 tier=quick fn=MqttState::clean+outgoing_publish+handle_incoming_puback
-#[test]
-fn clean_after_in_order_ack_history_is_send_order() {
-    let name = "rumqttc::MqttState::clean#send_order_after_in_order_acks";
+fn history_lemma(name: &str, with_qos2: bool) {
     let depth: usize = std::env::var("VERIF_DEPTH").ok().and_then(|s| s.parse().ok()).unwrap_or(9);
     let mut cases = 0u64;
     let mut fail: Option<String> = None;
     for n in 1..=nmax() {
         // ops: 0 = publish (if window not full and no collision), 1 = ack oldest, 2 = connection failure + session resume
         // (clean(), then the carried-over requests are replayed first, as the event loop does)
-        for code in 0..3u64.pow(depth as u32) {
+        // 3 = publish QoS 2 (acknowledged, in its turn, by PUBREC and PUBCOMP: no PUBACK ever names its id)
+        for code in 0..4u64.pow(depth as u32) {
+            if !with_qos2 && (0..depth).any(|k| (code / 4u64.pow(k as u32)) % 4 == 3) {
+                continue;
+            }
             let mut st = MqttState::new(n as u16, false);
             let mut sent: std::collections::VecDeque<Publish> = Default::default();
             let mut script = String::new();
             let mut tag = 0u8;
             for k in 0..depth {
-                let op = (code / 3u64.pow(k as u32)) % 3;
-                if op == 0 {
+                let op = (code / 4u64.pow(k as u32)) % 4;
+                if op == 0 || op == 3 {
                     if st.inflight >= st.max_inflight || st.collision.is_some() {
                         continue;
                     }
                     tag = tag.wrapping_add(1);
-                    let p = Publish::new(format!("t/{}", tag), QoS::AtLeastOnce, vec![tag]);
+                    let p = Publish::new(format!("t/{}", tag), if op == 0 { QoS::AtLeastOnce } else { QoS::ExactlyOnce }, vec![tag]);
                     match st.handle_outgoing_packet(Request::Publish(p)) {
                         Ok(Some(Packet::Publish(q))) => {
-                            script.push_str(&format!("pub->{} ", q.pkid));
+                            script.push_str(&format!("pub{}->{} ", if op == 0 { 1 } else { 2 }, q.pkid));
                             sent.push_back(q);
                         }
                         other => {
@@ -162,7 +163,12 @@ fn clean_after_in_order_ack_history_is_send_order() {
                 } else if op == 1 {
                     if let Some(p) = sent.pop_front() {
                         script.push_str(&format!("ack{} ", p.pkid));
-                        if st.handle_incoming_packet(Incoming::PubAck(PubAck::new(p.pkid))).is_err() {
+                        let acked = if p.qos == QoS::AtLeastOnce {
+                            st.handle_incoming_packet(Incoming::PubAck(PubAck::new(p.pkid))).is_ok()
+                        } else {
+                            st.handle_incoming_packet(Incoming::PubRec(PubRec::new(p.pkid))).is_ok() && st.handle_incoming_packet(Incoming::PubComp(PubComp::new(p.pkid))).is_ok()
+                        };
+                        if !acked {
                             fail = Some(format!("input=[n={} script={}] detail=[in-order ack rejected]", n, script));
                             break;
                         }
@@ -171,7 +177,13 @@ fn clean_after_in_order_ack_history_is_send_order() {
                     script.push_str("fail+resume ");
                     let pending = st.clean();
                     let exp: Vec<Request> = sent.iter().cloned().map(Request::Publish).collect();
-                    if pending != exp {
+                    // every unacknowledged publish is handed back, and the QoS 1 ones among them in the order they were sent
+                    let q1 = |v: &Vec<Request>| -> Vec<u16> { v.iter().filter_map(|r| match r { Request::Publish(p) if p.qos == QoS::AtLeastOnce => Some(p.pkid), _ => None }).collect() };
+                    let mut a: Vec<String> = pending.iter().map(|r| format!("{:?}", r)).collect();
+                    let mut b: Vec<String> = exp.iter().map(|r| format!("{:?}", r)).collect();
+                    a.sort();
+                    b.sort();
+                    if a != b || q1(&pending) != q1(&exp) {
                         fail = Some(format!("input=[n={} script={}] detail=[clean returned ids {:?}, send order was {:?}]", n, script,
                             pending.iter().map(|r| match r { Request::Publish(p) => p.pkid, _ => 0 }).collect::<Vec<_>>(), sent.iter().map(|p| p.pkid).collect::<Vec<_>>()));
                         break;
@@ -196,7 +208,12 @@ fn clean_after_in_order_ack_history_is_send_order() {
             let pending = st.clean();
             let exp: Vec<Request> = sent.iter().cloned().map(Request::Publish).collect();
             cases += 1;
-            if pending != exp {
+            let q1 = |v: &Vec<Request>| -> Vec<u16> { v.iter().filter_map(|r| match r { Request::Publish(p) if p.qos == QoS::AtLeastOnce => Some(p.pkid), _ => None }).collect() };
+            let mut a: Vec<String> = pending.iter().map(|r| format!("{:?}", r)).collect();
+            let mut b: Vec<String> = exp.iter().map(|r| format!("{:?}", r)).collect();
+            a.sort();
+            b.sort();
+            if a != b || q1(&pending) != q1(&exp) {
                 fail = Some(format!("input=[n={} script={}] detail=[clean returned ids {:?}, send order was {:?}]", n, script,
                     pending.iter().map(|r| match r { Request::Publish(p) => p.pkid, _ => 0 }).collect::<Vec<_>>(), sent.iter().map(|p| p.pkid).collect::<Vec<_>>()));
                 break;
@@ -207,12 +224,27 @@ fn clean_after_in_order_ack_history_is_send_order() {
         }
     }
     match fail {
-        None => println!("VERIF-OBLIGATION {} props=C11 bound=\"all scripts of length {} over publish / ack-oldest / failure+resume from new(n), n 1..={}\" cases={} ok", name, depth, nmax(), cases),
+        None => println!("VERIF-OBLIGATION {} props=C11 bound=\"all scripts of length {} over publish QoS1 /{} ack-oldest / failure+resume from new(n), n 1..={}\" cases={} ok", name, depth, if with_qos2 { " publish QoS2 /" } else { "" }, nmax(), cases),
         Some(f) => {
             println!("VERIF-FAIL {} props=C11 {}", name, f);
             panic!("{}", f);
         }
     }
+}
+
+// @native props=C11 tier=quick fn=MqttState::clean+outgoing_publish+handle_incoming_puback
+#[test]
+fn clean_after_in_order_ack_history_is_send_order() {
+    history_lemma("rumqttc::MqttState::clean#send_order_after_in_order_acks", false);
+}
+
+/// the same with QoS 2 publishes interleaved (their ids are never named by a PUBACK, so the rotation marker
+/// `last_puback` does not move for them): recorded as a KNOWN FINDING on the pinned tree, kept as a separate obligation
+/// so that the pure QoS 1 lemma above still reports any other change
+// @native props=C11 tier=quick fn=MqttState::clean+outgoing_publish+handle_incoming_{puback,pubrec,pubcomp}
+#[test]
+fn clean_send_order_with_qos2_publishes_interleaved() {
+    history_lemma("rumqttc::MqttState::clean#send_order_with_qos2_interleaved", true);
 }
 
 /// `new` establishes the representation invariant: tables sized for every id the wire can carry
